@@ -181,7 +181,7 @@ type mutation struct {
 }
 
 // mutations that need a multiplexer apply to few sites: they are tried more often
-var mutationWeight = map[string]int{"mux-groups": 4, "nested-name-clash": 3, "deep-name-clash": 4, "group-count-boundary": 4, "cross-mux-ref": 4, "retarget-id": 3, "size-fields": 4, "overlap-in-shared-group": 5}
+var mutationWeight = map[string]int{"mux-groups": 4, "nested-name-clash": 3, "deep-name-clash": 4, "group-count-boundary": 4, "cross-mux-ref": 4, "retarget-id": 3, "size-fields": 4, "overlap-in-shared-group": 5, "enum-numbers": 3}
 
 func pickMutation(r *rng) mutation {
 	total := 0
@@ -956,7 +956,7 @@ var mutations = []mutation{
 		return "has_static_can_id flipped"
 	}},
 	{"enum-numbers", func(r *rng, n *pb.Network, s *sites) string {
-		switch r.below(4) {
+		switch r.below(6) {
 		case 0:
 			if len(s.msgs) > 0 {
 				m := s.msgs[r.below(len(s.msgs))]
@@ -979,6 +979,23 @@ var mutations = []mutation{
 			if len(n.SignalTypes) > 0 {
 				n.SignalTypes[r.below(len(n.SignalTypes))].Kind = pb.SignalTypeKind(r.below(8))
 				return "signal type kind set to an undefined number"
+			}
+		case 4:
+			// the kind of a CAN-ID builder operation: unspecified (0), every defined number, undefined ones
+			var ops []*pb.CANIDBuilderOp
+			for _, cb := range n.CanidBuilders {
+				ops = append(ops, cb.Operations...)
+			}
+			if len(ops) > 0 {
+				op := ops[r.below(len(ops))]
+				op.Kind = pb.CANIDBuilderOpKind([]int32{0, 0, 1, 2, 3, 4, 5, 7, 100, -1}[r.below(10)])
+				return fmt.Sprintf("CAN-ID builder operation kind set to %d", op.Kind)
+			}
+		case 5:
+			if len(n.SignalUnits) > 0 {
+				u := n.SignalUnits[r.below(len(n.SignalUnits))]
+				u.Kind = pb.SignalUnitKind([]int32{0, 1, 2, 3, 4, 5, 9, -1}[r.below(8)])
+				return fmt.Sprintf("signal unit kind set to %d", u.Kind)
 			}
 		}
 		return ""
@@ -1246,6 +1263,77 @@ func invariants(n *acmelib.Network) (out []string, panicked string) {
 	return out, ""
 }
 
+// exercise uses a loaded network the way a caller would, under recover: CAN-ID of every message, operations and
+// result of every CAN-ID builder, decoding of two payloads, DBC export of every bus, String, SaveNetwork in the
+// three encodings.  Returns (site, description) of the first panic or save error, ("", "") otherwise.
+func exercise(n *acmelib.Network) (site, what string) {
+	step := "start"
+	defer func() {
+		if r := recover(); r != nil {
+			site = step + ":" + panicSite() + ":" + panicClass(r)
+			what = fmt.Sprintf("%s panics: %v in %s", step, r, panicSite())
+		}
+	}()
+	payloads := [][]byte{{0, 0, 0, 0, 0, 0, 0, 0}, {0xff, 0xa5, 0x5a, 0x0f, 0xf0, 0x33, 0xcc, 0x81}}
+	for _, b := range n.Buses() {
+		step = "Bus.CANIDBuilder"
+		if cb := b.CANIDBuilder(); cb != nil {
+			step = "CANIDBuilder.Operations"
+			for _, op := range cb.Operations() {
+				_ = op.Kind()
+				_ = op.From()
+				_ = op.Len()
+			}
+			step = "CANIDBuilder.Calculate"
+			_ = cb.Calculate(acmelib.MessagePriorityLow, 1, 1)
+			step = "CANIDBuilder.String"
+			_ = cb.String()
+		}
+		for _, ni := range b.NodeInterfaces() {
+			for _, m := range ni.SentMessages() {
+				step = "Message.GetCANID"
+				_ = m.GetCANID()
+				step = "SignalLayout.Decode"
+				for _, data := range payloads {
+					_ = m.SignalLayout().Decode(data)
+				}
+			}
+		}
+		step = "ExportBus"
+		var buf bytes.Buffer
+		acmelib.ExportBus(&buf, b)
+	}
+	step = "Network.String"
+	_ = n.String()
+	step = "SaveNetwork"
+	var w, j, t bytes.Buffer
+	if err := acmelib.SaveNetwork(n, acmelib.SaveEncodingWire|acmelib.SaveEncodingJSON|acmelib.SaveEncodingText, &w, &j, &t); err != nil {
+		return "SaveNetwork:error", "SaveNetwork of the loaded network fails: " + err.Error()
+	}
+	return "", ""
+}
+
+func safeLoadedRecord(n *acmelib.Network) (rec string, panicked string) {
+	defer func() {
+		if r := recover(); r != nil {
+			panicked = fmt.Sprint(r)
+		}
+	}()
+	gotSX, gcol := dumpLoadedNet(n)
+	return gotSX.String() + " " + dumpReceived(gcol).String(), ""
+}
+
+func panicClass(r any) string {
+	msg := fmt.Sprint(r)
+	switch {
+	case strings.Contains(msg, "nil pointer"):
+		return "nil-pointer"
+	case strings.Contains(msg, "index out of range"), strings.Contains(msg, "slice bounds"):
+		return "index-out-of-range"
+	}
+	return "other"
+}
+
 func clause(s string) string {
 	if i := strings.Index(s, ":"); i > 0 {
 		return s[:i]
@@ -1506,7 +1594,6 @@ func runC13(seed uint64, ncases int, outPath string, replay string) {
 		progress.Seek(0, 0)
 		progress.Truncate(0)
 		fmt.Fprintf(progress, "%s %s %s %s\n", in.id, eid, hex.EncodeToString(in.data), strings.ReplaceAll(in.descr, "\n", " "))
-		progress.Sync()
 		replayObj := fmt.Sprintf("%s %s", eid, hex.EncodeToString(in.data))
 		tree, uerr := unmarshalAs(in.data, in.enc)
 		size := len(in.data)
@@ -1598,6 +1685,11 @@ func runC13(seed uint64, ncases int, outPath string, replay string) {
 			if len(broken) > 0 {
 				st.hist["outcome-ok-invariant-broken"]++
 			}
+			// a loaded network must be usable: computed CAN-IDs, decoding, DBC export, String, saving again
+			if site, what := exercise(o.net); what != "" {
+				st.hist["outcome-ok-unusable"]++
+				st.fail("c13-unusable@"+site, fmt.Sprintf("LoadNetwork(%s) succeeds with a network that cannot be used: %s; input: %s", eid, what, in.descr), size, replayObj)
+			}
 		}
 		if uerr != nil {
 			st.hist["decoder-rejects"]++
@@ -1611,8 +1703,14 @@ func runC13(seed uint64, ncases int, outPath string, replay string) {
 			if o.err != nil {
 				fmt.Fprintf(out, "L %s %s (err)\n", in.id, eid)
 			} else {
-				gotSX, gcol := dumpLoadedNet(o.net)
-				fmt.Fprintf(out, "L %s %s (ok %s %s)\n", in.id, eid, gotSX.String(), dumpReceived(gcol).String())
+				// the projection reads the whole network through its getters: a panic there was reported above
+				// (c13-invariant-eval-panic); no record then, the P record is dropped by the driver with its case
+				if rec, pan := safeLoadedRecord(o.net); pan == "" {
+					fmt.Fprintf(out, "L %s %s (ok %s)\n", in.id, eid, rec)
+				} else {
+					st.hist["loaded-network-not-projectable"]++
+					fmt.Fprintf(out, "L %s %s (unreadable)\n", in.id, eid)
+				}
 			}
 		}
 	}
@@ -1663,6 +1761,57 @@ func runC13(seed uint64, ncases int, outPath string, replay string) {
 		}
 	}
 	st.cases = 0
+
+	// ---- tiny inputs, exhaustively: every input of length 0 and 1, the 2-byte inputs (all of them when
+	// VERIF_TINY_ALL is set = thorough tier; otherwise those starting with a byte that means something to one of the
+	// decoders or to the BOM handling, plus random ones), every 1-3 byte prefix of a valid save and of a BOM
+	encs := []acmelib.SaveEncoding{acmelib.SaveEncodingWire, acmelib.SaveEncodingJSON, acmelib.SaveEncodingText}
+	tiny := func(data []byte, descr string) {
+		for _, e := range encs {
+			evaluate(c13Input{"y" + hex.EncodeToString(data), e, data, descr})
+		}
+		st.hist["tiny-inputs"]++
+	}
+	tiny([]byte{}, "empty input")
+	for a := 0; a < 256; a++ {
+		tiny([]byte{byte(a)}, "1-byte input")
+	}
+	firsts := []int{0xEF, 0xFE, 0xFF, 0x00, 0x7B, 0x5B, 0x0A, 0x08, 0x12, 0x1A, 0x22}
+	if os.Getenv("VERIF_TINY_ALL") != "" {
+		firsts = firsts[:0]
+		for a := 0; a < 256; a++ {
+			firsts = append(firsts, a)
+		}
+	}
+	for _, a := range firsts {
+		if !skipping && overBudget() {
+			break
+		}
+		for b := 0; b < 256; b++ {
+			tiny([]byte{byte(a), byte(b)}, "2-byte input")
+		}
+	}
+	{
+		r := &rng{s: master.next()}
+		for i := 0; i < 200; i++ {
+			tiny([]byte{byte(r.below(256)), byte(r.below(256))}, "2-byte input (random)")
+		}
+		bom := []byte{0xEF, 0xBB, 0xBF}
+		for k := 1; k <= 3; k++ {
+			tiny(bom[:k], "prefix of a byte order mark")
+		}
+		for bi, bb := range baseBytes {
+			if bi >= 6 {
+				break
+			}
+			for e := 0; e < 3; e++ {
+				for k := 1; k <= 3 && k <= len(bb[e]); k++ {
+					tiny(append([]byte{}, bb[e][:k]...), "prefix of a valid save")
+					tiny(append(append([]byte{}, bom...), bb[e][:k]...), "byte order mark + prefix of a valid save")
+				}
+			}
+		}
+	}
 
 	// ---- tree-level mutations, each written in the three encodings
 	for ci := 0; ci < treeCases; ci++ {
